@@ -59,6 +59,12 @@ func c04Gen(tier string, emit func(c04Case)) {
 	for n := 1; n <= 4; n++ {
 		for _, sp := range splitsOf(n - 1) {
 			vectors("pn", n, func(b string) { push(chainShape{N: n, Split: sp, Via: "use", Beh: b, Hooks: "K"}) })
+			// ... a route registered with Any from a caller-owned slice that the caller overwrites afterwards
+			if sp[2] > 0 {
+				vectors("pn", n, func(b string) { push(chainShape{N: n, Split: sp, Via: "variadic", Beh: b, Hooks: "N"}) })
+			}
+			// ... and a PUT route registered before a broader POST+PUT route, measured after a POST of the same path
+			vectors("pn", n, func(b string) { push(chainShape{N: n, Split: sp, Via: "use", Beh: b, Hooks: "M"}) })
 		}
 	}
 	// group middleware added one Use at a time + a later sibling route with middleware of its own
@@ -177,7 +183,7 @@ func c04Run(c c04Case, st *fw.Stats) []fw.Viol {
 var c04Spec = fw.Spec[c04Case]{
 	ID:    "C04",
 	Level: "model_checking",
-	Rule: "complete enumeration: (a) all registration programs of <=N statements over {Use(k), Group(prefix,k){...}, Route(k variadic + k2 later Route.Use), Resource (a controller instance with its own per-action Uses() middleware), NotFound(k), NotAllowed(k)} with nesting <=3, one request per registered route plus a 404 and a 405 request, then again after one more middleware was attached to every route (Route.Use) and after one more global middleware was added (Router.Use); (b) all behaviour vectors over {returns without Next, Next once, Next twice} for chains of n<=6 (thorough 7) x every split of the middleware into global/group/route x how route middleware is attached (n<=4 also on a dynamic route of a caching router, measured on the cache hit, and registered and served in debug mode); (c) chains of 22..63 handlers, and of 64..81 handlers (global middleware is not counted by the limit), by deviation bounding (uniform default, <=2 deviating positions); " +
+	Rule: "complete enumeration: (a) all registration programs of <=N statements over {Use(k), Group(prefix,k){...}, Route(k variadic + k2 later Route.Use), Resource (a controller instance with its own per-action Uses() middleware), NotFound(k), NotAllowed(k)} with nesting <=3, one request per registered route plus a 404 and a 405 request, then again after one more middleware was attached to every route (Route.Use) and after one more global middleware was added (Router.Use); (b) all behaviour vectors over {returns without Next, Next once, Next twice} for chains of n<=6 (thorough 7) x every split of the middleware into global/group/route x how route middleware is attached (n<=4 also on a dynamic route of a caching router, measured on the cache hit, registered and served in debug mode, as a PUT route registered before a broader POST+PUT route and measured after a POST of the same path, and registered with Any from a caller-owned slice that the caller overwrites afterwards); (c) chains of 22..63 handlers, and of 64..81 handlers (global middleware is not counted by the limit), by deviation bounding (uniform default, <=2 deviating positions); " +
 		"oracle = enter/leave trace equals the cursor-free chain interpreter over the chain computed by the registration-program model; non-trivial = program with a group or a Use / chain with a handler that does not call Next exactly once",
 	Assume: []string{"handler identity = closure id allocated in program order by both harness and model"},
 	Bounds: func(tier string) map[string]any {
